@@ -109,6 +109,7 @@ def run(ctx: RuleContext, p: Program) -> None:
     ctx.try_rule(rule_detach_gate, p, 'DETACH-GATE')
     from . import round4
     ctx.try_rule(round4.rule_mixin_batch, p, 'MIXIN-BATCH')
+    ctx.try_rule(round4.rule_id_cmp, p, 'ID-CMP')
     st = it.stats
     ctx.stats['effect_interpreter'] = {
         'entries': n, 'mutating_entries': mutating, 'skipped_same_signature_in_quick': ents.get('_skipped_same_signature', 0),
